@@ -165,6 +165,30 @@ def fill(claim, na):
         "molecules.py/bonds.pyx.",
         "DESIGN.md section 2, C17",
     )
+    claim(
+        "C18",
+        "fixed-column width calculus of the V2000 f-strings vs. reader slices, guard/argument "
+        "agreement, literal table evaluation (ctab.py, RDKit bridge), setter/getter pairing, "
+        "reader-trigger vs. writer-refusal agreement of the SD grammar, lazy-container rules "
+        "(custom ast analysis)",
+        "Decides: V2000 counts, atom, bond, 'M  CHG' and header lines put every field into the "
+        "columns the reader slices, the version tags sit in the version columns, indices are "
+        "1-based both ways; the 3-digit count fields are bounded by _is_v2000_compatible (limit "
+        "10**3), which is called with exactly the expressions that are formatted and guards every "
+        "path into the V2000 writer; coordinate fields are bounded by the digit guard (no rounding "
+        "carry exists for float32 - computed), element and header fields are bounded/truncated, "
+        "NaN refused; BOND_TYPE_MAPPING/CHARGE_MAPPING and their reverse tables invert each other "
+        "with the CTfile codes; every RDKit bond type from_mol understands is producible by to_mol "
+        "and returns to the same type for both values of use_dative_bonds; to_mol/from_mol pair "
+        "the nine residue-info fields and charges, model i is conformer position i; a metadata "
+        "value line starting with '>' or '$$$$' is refused (also by the constructor), key "
+        "components are serialised in the forms the component regexes parse; SDFile stores "
+        "lazily parsed records and compares through __getitem__. Not decided: coordinates to "
+        "0.0001, V3000 property parsing, kekulisation.",
+        "Trusted: float32 coordinates; blank lines / surrounding blanks in metadata values are "
+        "format limits; idiom tables in sa/props/C18.py.",
+        "DESIGN.md section 2, C18",
+    )
     for p in ["C03", "C03", "C04", "C05", "C08", "C09", "C10",
-              "C11", "C14", "C15", "C16", "C18", "C19"]:
+              "C11", "C14", "C15", "C16", "C19"]:
         na(p, PENDING)
